@@ -16,11 +16,11 @@ Level1 == {"License", ".Header"}
 Level2 == {"x", ".y"}
 Bases  == {"f", "g"}
 Suffix == {".txt", "txt", ".md", ".TXT"}         \* "txt": a bare name ending in txt (e.g. "ftxt")
-Spell  == {"plain", "trailing", "dot", "dottrailing", "absolute", "cwd", "cwdslash", "inner", "updown"}
+Spell  == {"plain", "trailing", "dot", "dottrailing", "absolute", "cwd", "cwdslash", "inner", "updown", "symlink", "symlinktrailing"}   \* the last two: dir is a symbolic link to the corpus directory
 (* history before the load: nothing; every key of the tree (and one foreign key) registered with other content;
    the tree loaded once with other file contents (then edited, then loaded again) *)
-Mode   == {"fresh", "pre", "reload"}
-Combos == (Spell \X {"fresh"}) \cup ({"plain", "absolute"} \X {"pre", "reload"})
+Mode   == {"fresh", "pre", "reload", "txtdir"}       \* txtdir: the tree also holds an (empty) DIRECTORY named zz.txt at variant depth -- not a file, nothing to load
+Combos == (Spell \X {"fresh"}) \cup ({"plain", "absolute"} \X {"pre", "reload", "txtdir"})
 
 (* candidate files: depth 1..5 below the corpus directory *)
 Dirs(d) == CASE d = 1 -> {<<>>}
